@@ -24,7 +24,7 @@ MOD = 'github.com/coreruleset/crs-toolchain/v2'
 GOENV = dict(os.environ, GOFLAGS='-mod=mod', GOPROXY='off', GOSUMDB='off', GOTOOLCHAIN='local')
 # library packages whose real Go bodies are dumped as a fallback for calls without a Python model
 STDLIB_FALLBACK = 'strings,bytes,unicode/utf8,unicode,strconv,path,regexp,sort,slices,maps,errors,path/filepath'
-OUT = os.path.join(ROOT, 'out')
+OUT = os.environ.get('VERIF_OUT') or os.path.join(ROOT, 'out')
 os.makedirs(OUT, exist_ok=True)
 
 
@@ -303,8 +303,19 @@ def _die_with_parent():
         pass
 
 
+def _limit_memory():
+    """a job whose encoding explodes must end as inconclusive (MemoryError), not take the machine down"""
+    try:
+        import resource
+        gb = float(os.environ.get('VERIF_JOB_MEM_GB', '6'))
+        resource.setrlimit(resource.RLIMIT_AS, (int(gb * (1 << 30)), int(gb * (1 << 30))))
+    except Exception:
+        pass
+
+
 def _child(conn, args):
     _die_with_parent()
+    _limit_memory()
     try:
         r = _job(args)
         # models etc. are plain data; strip anything unpicklable defensively
